@@ -51,6 +51,7 @@ def _chain(e):
 
 
 def _is_getter(name):
+    name = name.lstrip("_")
     for p in GETTER_PREFIXES:
         if name.startswith(p) and name[len(p):len(p) + 1] and (name[len(p)].isupper() or name[len(p)] == "_"):
             return True
